@@ -9909,6 +9909,7 @@ class Parser:
 
         options = []
         while self._curr and not self._match(TokenType.R_PAREN, advance=False):
+            index = self._index
             option = self._parse_var(any_token=True)
             prev = self._prev.text.upper()
 
@@ -9940,6 +9941,11 @@ class Parser:
 
             if sep:
                 self._match(sep)
+
+            if self._index == index:
+                # nothing was consumed: without this the loop never ends under non-raising error levels
+                self.raise_error("Unable to parse COPY parameter")
+                break
 
         return options
 
